@@ -35,16 +35,16 @@ UNSUPPORTED = {
 POSITIONS = [
     "root", "properties", "properties_typed", "patternProperties", "additionalProperties",
     "propertyNames", "dependencies", "items", "tuple_first", "tuple_last", "additionalItems_tuple",
-    "additionalItems_plain", "contains", "anyOf", "oneOf", "allOf", "not", "typelist", "required_sibling",
+    "additionalItems_plain", "additionalItems_single_items", "contains", "anyOf", "oneOf", "allOf", "not", "typelist", "required_sibling",
     "definitions",
 ]
 REQUIRED_COUNTERS = (
     ["refused", "control_parsed", "cycle.refused", "negative_control_parsed", "route.main", "route.parse",
-     "route.parse_element"]
+     "route.parse_element", "concurrent_parse.refusals"]
     + [f"pos.{p}" for p in POSITIONS] + [f"kw.{k}" for k in UNSUPPORTED]
 )
 EXHAUSTIVE_SUBSPACES = {
-    "quick": ["every position (20) x every unsupported keyword (6), each with several host schemas"],
+    "quick": ["every position (21) x every unsupported keyword (6), each with several host schemas"],
     "thorough": ["every position (20) x every unsupported keyword (6), each with many host schemas",
                  "cycle lengths 1..30 through each of 12 positions"],
 }
@@ -89,6 +89,9 @@ def place(inner, position, rng, title="Host"):
         return {"items": [{"type": "string"}], "additionalItems": inner}
     if position == "additionalItems_plain":
         return {"additionalItems": inner}
+    if position == "additionalItems_single_items":
+        # (Draft 6 ignores additionalItems next to a single-schema items, but statham reads it as a schema)
+        return {"type": "array", "items": rng.choice([{"type": "string"}, True, {}]), "additionalItems": inner}
     if position == "contains":
         return {"contains": inner}
     if position in ("anyOf", "oneOf", "allOf"):
@@ -319,9 +322,71 @@ def cycles(ctx, sut):
         ctx.sample({"cycle_files": files}, every=25)
 
 
+def concurrent_parsing(ctx, sut):
+    """Refusal must not depend on what other threads are parsing at the same time."""
+    import threading  # pylint: disable=import-outside-toplevel
+
+    # (wide, so that a background thread is inside the parser almost all the time)
+    ordinary = {"type": "object", "title": "Plain",
+                "properties": {f"p{idx}": {"type": "array", "items": {"anyOf": [{"type": "integer"}, {"type": "null"}]}}
+                               for idx in range(150)}}
+    results = []
+    stop = threading.Event()
+
+    prepared = sut.add_titles(ordinary)
+
+    def background():
+        while not stop.is_set():
+            sut.st_parser.parse_element(copy.deepcopy(prepared))
+
+    def refusals():
+        for idx in range(12):
+            cyclic = {"type": "object", "title": "Loop", "properties": {}}
+            cyclic["properties"]["next"] = cyclic  # a resolved self-reference, as json_ref_dict materialises it
+            unsupported = {"properties": {"p": {"if": {"type": "string"}, "type": "string"}}}
+            for label, doc in (("cycle", cyclic), ("keyword", unsupported)):
+                try:
+                    sut.st_parser.parse_element(doc)
+                    results.append((label, "ok", None))
+                except BaseException as exc:  # pylint: disable=broad-except
+                    results.append((label, sut.outcome_class(exc), repr(exc)[:120]))
+            _ = idx
+
+    threads = [threading.Thread(target=background) for _ in range(3)] + [threading.Thread(target=refusals)]
+    import sys  # pylint: disable=import-outside-toplevel
+
+    old = sys.getswitchinterval()
+    sys.setswitchinterval(1e-5)
+    try:
+        for thread in threads:
+            thread.start()
+        threads[-1].join(timeout=120)
+        stop.set()
+        for thread in threads[:-1]:
+            thread.join(timeout=60)
+    finally:
+        sys.setswitchinterval(old)
+        stop.set()
+    if threads[-1].is_alive():
+        ctx.inconclusive_reason("concurrent parsing did not finish within 120 s")
+        return
+    for label, outcome, detail in results:
+        ctx.evaluation()
+        ctx.count("concurrent_parse.refusals")
+        if outcome != "FeatureNotImplementedError":
+            ctx.witness("not_refused" if label == "keyword" else "cycle_not_refused",
+                        {"doc": "<self-referential dict>" if label == "cycle" else {"properties": {"p": {"if": {}}}},
+                         "route": "parse_element", "label": "concurrent " + label},
+                        f"while other threads were parsing ordinary schemas: expected FeatureNotImplementedError, "
+                        f"got {outcome}: {detail}")
+            return
+
+
 def run_shard(ctx):
     from vlib import sut  # pylint: disable=import-outside-toplevel
 
+    if ctx.shard % 4 == 0:
+        concurrent_parsing(ctx, sut)
     matrix(ctx, sut)
     chains(ctx, sut)
     if ctx.shard == 0:
